@@ -46,12 +46,11 @@ RunOne(P, c, t) ==       \* task t receives the result of its last yield and run
           IN CASE tm.k = "raise" -> [c EXCEPT !.done[t] = "fail", !.pc[t] = k]
                [] tm.k \in {"return", "result"} -> [c EXCEPT !.done[t] = "ok", !.pc[t] = k]
                [] tm.k = "yield" ->
-                    LET ls == YieldLeaves(P, t, k)
+                    LET ls == NewLeaves(P, t, k)
                         kids == {ls[i].n : i \in {j \in 1..Len(ls) : ls[j].g = "T"}}
                         items == {<<ls[i].f, ls[i].n>> : i \in {j \in 1..Len(ls) : ls[j].g = "I"}}
-                    IN IF IsReuse(P, t, k) THEN [c EXCEPT !.pc[t] = k]         \* the same object again: nothing new is created
-                       ELSE [c EXCEPT !.pc = [u \in DOMAIN @ |-> IF u = t THEN k ELSE IF u \in kids /\ @[u] = -1 THEN 0 ELSE @[u]],
-                                      !.issued = @ \cup items]
+                    IN [c EXCEPT !.pc = [u \in DOMAIN @ |-> IF u = t THEN k ELSE IF u \in kids /\ @[u] = -1 THEN 0 ELSE @[u]],
+                                 !.issued = @ \cup items]
 
 RECURSIVE Saturate(_, _)
 Saturate(P, c) ==
